@@ -462,3 +462,7 @@ impl Pat for Bb {
         json!({"kty": "-", "ksz": 0, "kal": 0, "mr": d.max_readers, "mn": d.max_nodes, "at": UNSET})
     }
 }
+
+pub fn defaults_of<P: Pat>(config: &Config) -> Value {
+    P::defaults(config)
+}
